@@ -2,6 +2,7 @@ package props
 
 import (
 	"fmt"
+	"net/url"
 	"regexp"
 	"sort"
 	"strings"
@@ -172,7 +173,7 @@ func c07Gen(t *rapid.T, tier Tier) interface{} {
 		c.Src = v
 	case "url":
 		c.Src = rapid.SampledFrom([]string{"data:", "data:,", "data:;base64,", "data:text/plain;base64,", "data:text/plain;charset=", "data:image/png;base64,AAAA", "DATA:,x", "data:;;;,", "data:text/html;charset=utf-8;base64,", "http://", "file://", "file:///nonexistent", "//x", ":", "%", "a%zz", "data:,%", "data:,%f", "data:;base64,%%%", "data:;base64,====", "data:a/b;c=\"d,e\",f", "#", "?", ""}).Draw(t, "u") +
-			rapid.SampledFrom([]string{"", "a", "%41", "%", "%zz", "==", "\x00", "é", " ", ",", ";", "/../..", "\\"}).Draw(t, "us") + rapid.StringN(0, 4, -1).Draw(t, "ur")
+			rapid.SampledFrom([]string{"", "a", "%41", "%", "%zz", "%4G", "%g4", "abc%2zdef", "%a%41", "%C3%A9", "==", "\x00", "é", " ", ",", ";", "/../..", "\\"}).Draw(t, "us") + rapid.StringN(0, 4, -1).Draw(t, "ur")
 	case "htmlattr":
 		val := rapid.SampledFrom([]string{"", "0", "-1", "1", "2", "3", "1000", "99999999999999999999", "1e9", "١", " 2 ", "2x", "x", "+2", "-0", "2.5", "\x00", "65535", "1000000"}).Draw(t, "av")
 		val2 := rapid.SampledFrom([]string{"", "0", "-1", "2", "99999999999", "x", "3"}).Draw(t, "av2")
@@ -318,6 +319,24 @@ func c07Check(ci interface{}) Verdict {
 			labels = append(labels, "rejected")
 		} else {
 			labels = append(labels, "accepted")
+		}
+		// a malformed percent escape in the payload of a plain data: URI is bad input: it is signalled
+		// (reference for well-formedness: net/url)
+		if low := strings.ToLower(c.Src); strings.HasPrefix(low, "data:") {
+			if i := strings.Index(c.Src, ","); i >= 0 && !strings.Contains(low[:i], ";base64") && !strings.Contains(c.Src, "#") {
+				// (the fetcher drops white space from the payload before decoding it)
+				payload := strings.Map(func(r rune) rune {
+					if r == ' ' || r == '\t' || r == '\n' || r == '\r' || r == '\f' || r == '\v' {
+						return -1
+					}
+					return r
+				}, c.Src[i+1:])
+				_, refErr := url.PathUnescape(payload)
+				labels = append(labels, "data-uri-payload")
+				if refErr != nil && err == nil {
+					return Viol("url:data:malformed-escape-accepted", "%q is fetched without error although its payload holds a malformed percent escape (%v)", c.Src, refErr)
+				}
+			}
 		}
 		utils.UrlJoin("http://base/a/b", c.Src, true, "ctx")
 		utils.UrlJoin(c.Src, "x", false, "ctx")
